@@ -298,9 +298,12 @@ Definition decode_picture (o : dec_opts) (prev : option picture) (r0 : reader)
     let* (trp, r) := (if has opts REFERENCE_PICTURE_SELECTION then decode_trpi r else Ok (None, r)) in
     let* r := (if has opts REFERENCE_PICTURE_SELECTION then let* (_, r) := decode_bcm r in Ok r else Ok r) in
     let* _ := (if has opts REFERENCE_PICTURE_RESAMPLING
-                  || (match prev, fmt with
-                      | Some p, Some _ => negb (format_eqb (format p) fmt)   (* only a retransmitted format can differ *)
-                      | _, _ => false
+                  || (match prev with
+                      | Some p => (match format p, fmt with
+                                   | Some _, Some _ => negb (format_eqb (format p) fmt)   (* only two transmitted formats can differ *)
+                                   | _, _ => false
+                                   end)
+                      | None => false
                       end)
                then Err EUnimplemented else Ok tt) in
     let* (q, r) := read_bits 8 5 r in
